@@ -438,7 +438,8 @@ fn eval_inner(case: &Case, clock: &Clock, ex: &mut Exec, age: &mut u64) -> Verdi
                 _ => None,
             },
             expect_msid: match &concrete {
-                Concrete::PublishAudio { .. } | Concrete::PublishVideo { .. } | Concrete::PublishMetadata(_) => model.active,
+                // only when the model still knows which stream is active
+                Concrete::PublishAudio { .. } | Concrete::PublishVideo { .. } | Concrete::PublishMetadata(_) if !model.unspecified => model.active,
                 _ => None,
             },
             age: *age,
@@ -899,7 +900,7 @@ pub fn spec() -> PropSpec {
             "session-generated timestamps, ping-request payloads and Acknowledgements are masked in the twin-run comparison",
         ],
         checks: vec![
-            PropCheck::new("random-histories", |ctx| case_strategy(if ctx.tier == Tier::Thorough { 40 } else { 25 }), 6_000, 200_000, eval),
+            PropCheck::new("random-histories", |ctx| case_strategy(if ctx.tier == Tier::Thorough { 40 } else { 25 }), 80_000, 2_000_000, eval),
             EnumCheck::new("bounded-exhaustive", true, exhaustive_cases, eval),
         ],
     }
